@@ -261,6 +261,47 @@ def ref_filter(mode, text):
     return "".join(out)
 
 
+# The same documentation text read for the other ASCII whitespace characters (C19 only; Interp(ws_doc=True)).
+#   oneline: "Collapse all runs of whitespace into a single space character, removing all newlines" -- a maximal run
+#            of whitespace becomes one space whatever whitespace characters it is made of.
+#   single:  "Collapse consecutive whitespace with a single whitespace character, preserving newlines" -- a run that
+#            holds a newline becomes one newline; a run of spaces/tabs one space.  Which character stands for a
+#            run of other whitespace without a newline (a lone CR, VT VT ...) the text does not say: not pinned.
+# "Whitespace" is pinned for the six characters every definition agrees on (string.whitespace: space, tab, LF, CR,
+# VT, FF).  Characters only str.isspace() / the regex class \s count as whitespace (FS..US, NEL, NBSP, U+2028,
+# U+3000 ...) stay unspecified, and so does a whole text segment that contains one (it may sit inside a run).
+ASCII_WS = " \t\n\r\x0b\x0c"
+
+
+def ref_filter_doc(mode, text):
+    """-> the filtered text, or None where the documentation does not pin the result."""
+    if mode == "all":
+        return text
+    if any(c.isspace() and c not in ASCII_WS for c in text):
+        return None
+    out = []
+    i, n = 0, len(text)
+    while i < n:
+        if text[i] not in ASCII_WS:
+            out.append(text[i])
+            i += 1
+            continue
+        j = i
+        while j < n and text[j] in ASCII_WS:
+            j += 1
+        run = text[i:j]
+        if mode == "oneline":
+            out.append(" ")
+        elif "\n" in run:
+            out.append("\n")
+        elif all(c in " \t" for c in run):
+            out.append(" ")
+        else:
+            return None
+        i = j
+    return "".join(out)
+
+
 # ------------------------------------------------------------------------------------------
 # printer self-check: tokenizer of the documented lexical rules
 
@@ -621,10 +662,12 @@ def file_settings(case):
 
 
 class Interp:
-    def __init__(self, case, ns):
+    def __init__(self, case, ns, ws_doc=False):
         self.ns = dict(default_namespace())
         self.ns.update(ns)
         self.unspecified = set()
+        self.ws_doc = ws_doc         # C19: other ASCII whitespace under a filtering mode is judged where documented
+        self.ws_pinned = {}          # mode -> number of text segments with such whitespace that were pinned
         self.emits = []              # (src, file, escaped?, inside apply?) for every expression emitted
         self.files = {}
         self.auto = {}
@@ -657,9 +700,17 @@ class Interp:
                 if "<pre>" in s:
                     f = s
                 else:
+                    f = None
                     if st["ws"] != "all" and has_exotic_ws(s):
-                        self.unspecified.add("exotic-whitespace-under-filtering")
-                    f = ref_filter(st["ws"], s)
+                        if self.ws_doc:
+                            f = ref_filter_doc(st["ws"], s)
+                        if f is None:
+                            self.unspecified.add("exotic-whitespace-under-filtering")
+                        else:
+                            key = st["ws"] + ("" if any(c in PLAIN_WS for c in s) else "-no-plain-ws-in-segment")
+                            self.ws_pinned[key] = self.ws_pinned.get(key, 0) + 1
+                    if f is None:
+                        f = ref_filter(st["ws"], s)
                 out.append(("text", f))
             elif k == "whitespace":
                 st["ws"] = nd[1]
@@ -881,8 +932,35 @@ class Gen:
         self.fresh += 1
         return "%s%d" % (p, self.fresh)
 
+    def exotic_text(self):
+        """C19: words separated by whitespace runs made of CR / VT / FF (alone, repeated, mixed with space, tab and
+        newline, CRLF line ends) and now and then a character only Unicode calls whitespace; many such segments
+        hold no space, tab or newline at all."""
+        rng = self.rng
+        self.features.add("exotic-ws")
+        k = rng.random()
+        if k < 0.45:
+            pool = ["\r", "\x0b", "\x0c", "\r\r", "\x0c\x0b", "\x0b\r\x0c"]
+        elif k < 0.92:
+            pool = ["\r", "\x0b", "\x0c", "\r\n", "\r\n", "\n\r", " \r", "\r ", "\t\x0b ", "\x0c\n\x0c", "\r\n\r\n", " ", "\n",
+                    "  \x0b  ", "\r\t"]
+        else:
+            pool = ["\r", "\x0c", " ", "\n", "\xa0", "\u2028", "\x1f", "\x85", "\u3000", "\x1c", "\u2029", "\u200a", "\xa0 ", "\r\x85"]
+        out = []
+        if rng.random() < 0.3:
+            out.append(rng.choice(pool))
+        for i in range(rng.choice([1, 2, 2, 3, 5])):
+            if i:
+                out.append(rng.choice(pool))
+            out.append(rng.choice(WORDS) if rng.random() < 0.7 else rng.choice("abcxyz<>\"'\\%#!.,;"))
+        if rng.random() < 0.3:
+            out.append(rng.choice(pool))
+        return re.sub(r"\{(?=[{%#])", "{ ", "".join(out))
+
     def text(self):
         rng = self.rng
+        if self.mode == "c19" and not self.plain_lines and rng.random() < 0.05:
+            return self.exotic_text()
         out = []
         for _ in range(rng.choice([1, 1, 2, 3, 4, 6])):
             r = rng.random()
